@@ -73,7 +73,7 @@ class Dims:
         if bad and record:
           self.mismatches.append((f, e, norm(e), l, r))
         return d
-      if isinstance(e.op, ast.Mult):
+      if isinstance(e.op, (ast.Mult, ast.MatMult)):
         if l == POLY or r == POLY:
           return POLY
         if l is None or r is None:
@@ -137,6 +137,12 @@ class Dims:
       if name == 'var' and (e.args or isinstance(fn, ast.Attribute)):
         d = self.dim(f, e.args[0] if e.args else fn.value, at, depth - 1, record)
         return None if d in (None, POLY) else 2 * d
+      if name in ('dot', 'inner', 'vdot', 'matmul', 'multiply', 'outer', 'cov') and (len(e.args) == 2 or (len(e.args) == 1 and isinstance(fn, ast.Attribute))):
+        a_, b_ = (e.args[0], e.args[1]) if len(e.args) == 2 else (fn.value, e.args[0])
+        da_, db_ = self.dim(f, a_, at, depth - 1, record), self.dim(f, b_, at, depth - 1, record)
+        if da_ == POLY or db_ == POLY:
+          return POLY
+        return None if da_ is None or db_ is None else da_ + db_
       if name == 'sqrt' and e.args:
         d = self.dim(f, e.args[0], at, depth - 1, record)
         return None if d is None else (POLY if d == POLY else Fraction(d) / 2)
